@@ -355,6 +355,16 @@ theorem check_language_nocrash (munch : List Char → List Char) (inp : Input) (
     ∃ out, checkLanguage munch inp = .ok out :=
   checkLanguage_nocrash munch inp hg
 
+/-- the two together: for every path whose file type `Checker.check()` derives from the name, `check_language` returns exactly the
+    reference verdict -/
+theorem language_tags_total (munch : List Char → List Char) (inp : Input) (hg : knownExtension inp.path = true) :
+    checkLanguage munch inp = .ok ⟨verdictTags munch inp, verdictLanguage munch inp⟩ := by
+  obtain ⟨out, h⟩ := checkLanguage_nocrash munch inp hg
+  obtain ⟨h1, h2⟩ := checkLanguage_verdict munch inp out h
+  rw [h]
+  cases out
+  simp_all
+
 /-- `parse_language`, `fix_codes`, the `-l` handling and `get_language_for_name` raise only their documented exceptions -/
 theorem leaf_error_kinds (s : List Char) (l : Language) (e : LErr) :
     (parseLanguageE s = .error e → e = .syntax) ∧ (fixCodes l = .error e → e = .fixingCodes)
